@@ -2,6 +2,7 @@ package checks
 
 import (
 	"fmt"
+	"os"
 	"strings"
 	"sync"
 	"time"
@@ -299,6 +300,11 @@ func c03RunAll(r *findings.Run, stats *c03Stats, deadline time.Time) {
 			stats.validated++
 		case "undefined":
 			stats.undef++
+			if kind == "index-sweep" {
+				// the sweeps are written to stay in range: an undefined one is a mistake of this check
+				fmt.Fprintf(os.Stderr, "HARNESS ERROR: sweep program %s leaves the defined fragment: %s\n", names[i], pv.Detail)
+				os.Exit(2)
+			}
 		}
 		stats.mu.Unlock()
 		if stats.validated%313 == 1 {
@@ -459,6 +465,38 @@ func c03Sweeps(r *findings.Run, stats *c03Stats, deadline time.Time) {
 			progs = append(progs, &Prog{Stmts: st})
 			names = append(names, fmt.Sprintf("string-sweep literal-indices len=%d", n))
 		}
+	}
+	// indices that are calls sharing state ("index any int expression"): each bound is evaluated once, the
+	// low bound before the high bound, subscripts of one statement from left to right
+	for _, n := range []int{11, 14} {
+		s := c03Alphabet[:n]
+		next := Call{Fn: "next"}
+		st := []Stmt{
+			Define{Names: []string{"c"}, Form: DefShort, Vals: []Expr{lit(0)}},
+			FuncDef{Name: "next", Rets: []Type{TInt}, Body: []Stmt{IncDec{Name: "c", Inc: true}, Return{Vals: []Expr{Var{"c"}}}}},
+			FuncDef{Name: "reset", Params: []Param{{"v", TInt}}, Body: []Stmt{Assign{Names: []string{"c"}, Vals: []Expr{Var{"v"}}}}},
+			Define{Names: []string{"s"}, Form: DefShort, Vals: []Expr{StrLit{V: s}}},
+			Define{Names: []string{"v"}, Form: DefShort, Vals: []Expr{SliceLit{Elem: TInt, Elems: []Expr{lit(10), lit(11), lit(12), lit(13), lit(14), lit(15), lit(16), lit(17), lit(18)}}}},
+		}
+		for start := 0; start <= 3; start++ {
+			st = append(st,
+				ExprStmt{X: Call{Fn: "reset", Args: []Expr{lit(start)}}},
+				Print{Args: []Expr{StrLit{V: "low-high"}, fr(Substr{X: Var{"s"}, Lo: next, Hi: Binary{Op: "+", L: next, R: lit(2)}}), Var{"c"}}},
+				ExprStmt{X: Call{Fn: "reset", Args: []Expr{lit(start)}}},
+				Print{Args: []Expr{StrLit{V: "two-chars"}, fr(Index{X: Var{"s"}, I: next}), fr(Index{X: Var{"s"}, I: next}), Var{"c"}}},
+				ExprStmt{X: Call{Fn: "reset", Args: []Expr{lit(start)}}},
+				Print{Args: []Expr{StrLit{V: "open"}, fr(Substr{X: Var{"s"}, Hi: next}), fr(Substr{X: Var{"s"}, Lo: next}), Var{"c"}}},
+				ExprStmt{X: Call{Fn: "reset", Args: []Expr{lit(start)}}},
+				Print{Args: []Expr{StrLit{V: "elements"}, Index{X: Var{"v"}, I: next}, Index{X: Var{"v"}, I: next}, Binary{Op: "-", L: Index{X: Var{"v"}, I: next}, R: Index{X: Var{"v"}, I: next}}, Var{"c"}}},
+				ExprStmt{X: Call{Fn: "reset", Args: []Expr{lit(start)}}},
+				// (a subscript of a subscript, s[a:][b:c], is not accepted by the parser: two steps)
+				Define{Names: []string{fmt.Sprintf("u%d", start)}, Form: DefShort, Vals: []Expr{Substr{X: Var{"s"}, Lo: next}}},
+				Define{Names: []string{fmt.Sprintf("t%d", start)}, Form: DefShort, Vals: []Expr{Substr{X: Var{fmt.Sprintf("u%d", start)}, Lo: lit(0), Hi: next}}},
+				Print{Args: []Expr{StrLit{V: "two-step"}, fr(Var{fmt.Sprintf("t%d", start)}), Var{"c"}}},
+			)
+		}
+		progs = append(progs, &Prog{Stmts: st})
+		names = append(names, fmt.Sprintf("string-sweep call-indices len=%d", n))
 	}
 	// slice growth one element at a time with read-back (multi-digit indices), per element type
 	for _, el := range c03Elems {
